@@ -30,6 +30,6 @@ Definition obs_of (r : nat + st) : list nat :=
 (* the tree under check: the readiness rule read from its source *)
 Definition obs_nat (with_future : bool) (tr : list ev) : list nat :=
   obs_of (run_at ready_is_result (init with_future) tr 0).
-(* an explicitly chosen rule (used to show what the rule before the fix admits) *)
+(* an explicitly chosen rule (used to show what the rule before the fix allows) *)
 Definition obs_nat_g (rr : bool) (with_future : bool) (tr : list ev) : list nat :=
   obs_of (run_at rr (init with_future) tr 0).
